@@ -831,3 +831,54 @@ Proof.
   - intros Hs. destruct (retry_exhaust c h e Hf Hs) as [Hc _].
     unfold attempts. rewrite Hc, seq_length. lia.
 Qed.
+
+(** * 6. MaxElapsedTime / any ended context under the fair-select contract (round "proofs 3") *)
+
+Lemma loop_one_ctx_exit c h sl : forall rem k cur now last,
+  (length (filter w_ctx (r_waits (loop c h sl rem k cur now last))) <= 1)%nat.
+Proof.
+  induction rem as [|rem IH]; intros k cur now last; [cbn; lia|].
+  cbn [loop]. destruct (next_backoff c cur (s_elapsed (sl k)) (s_rnd (sl k))) as [wait cur'].
+  destruct (s_ctx (sl k)) eqn:E; [cbn; lia|].
+  destruct (is_ok (h k)); [cbn; lia|].
+  cbn [r_waits filter w_ctx]. apply IH.
+Qed.
+
+Lemma filter_split_le {A} (P Q : A -> bool) l :
+  (length (filter P l) <= length (filter (fun x => negb (Q x) && P x) l) + length (filter Q l))%nat.
+Proof.
+  induction l as [|x l IH]; [cbn; lia|]. cbn [filter].
+  destruct (P x), (Q x); cbn [negb andb length]; lia.
+Qed.
+
+(** once ctx.Done() is ready (message context cancelled, or the MaxElapsedTime deadline passed and
+    Done closed) at most K + 1 more iterations are entered when at most K select races are lost:
+    K retries, none of them after a wait, and the iteration that gives up *)
+Lemma retry_gives_up_within_K c h e K : env_ok c h e = true ->
+  (lost_races (t_done c e) (r_waits (retry c h e)) <= K)%nat ->
+  (length (filter (fun it => ctx_ready_at (t_done c e) (w_tnb it)) (r_waits (retry c h e))) <= K + 1)%nat
+  /\ forall it, In it (r_waits (retry c h e)) -> ctx_ready_at (t_done c e) (w_tnb it) = true ->
+       w_ctx it = false -> w_wait it <= 0.
+Proof.
+  intros Henv HK. split.
+  - pose proof (filter_split_le (fun it => ctx_ready_at (t_done c e) (w_tnb it)) w_ctx (r_waits (retry c h e))) as S.
+    assert (C1 : (length (filter w_ctx (r_waits (retry c h e))) <= 1)%nat).
+    { unfold retry. destruct (is_ok (h O)); [cbn; lia|]. cbn [r_waits]. apply loop_one_ctx_exit. }
+    unfold lost_races, lost_race in HK. lia.
+  - intros it Hin Hr Hc. apply (retry_after_context_end c h e Henv it Hin).
+    unfold lost_race. rewrite Hc, Hr. reflexivity.
+Qed.
+
+(** * 7. what the Logger is given *)
+(** the errors handed to Logger.Error are, in order, the errors of the failed re-invocations
+    1..f (each call gets the error of the attempt that just failed, never an earlier one) *)
+Lemma retry_log_errs c h e : has_log c = true ->
+  log_errs h (r_trace (retry c h e))
+  = map (fun k => snd (h k)) (seq 1 (failed_retries h (r_trace (retry c h e)))).
+Proof.
+  intros HL. destruct (retry_hook_sequence c h e) as [Hn [Hf [_ [Hg _]]]]. cbn zeta in *.
+  unfold log_errs. rewrite Hg, HL, !map_map. cbn [fst note_of].
+  set (f := failed_retries h (r_trace (retry c h e))) in *.
+  rewrite <- (firstn_seq' f 1 (length (r_waits (retry c h e))) Hf), <- Hn, firstn_map', map_map.
+  apply map_ext. intros it. rewrite Nat2Z.id. reflexivity.
+Qed.
